@@ -24,6 +24,7 @@ func init() {
 			{"PURITY", func(c *eng.Ctx) {
 				rulePurity(c, "PURITY", []string{"internal/core/block.New", "internal/core/block.putBlock", "internal/core/block.(*Block).GenerateLink", "internal/core/block.(*Block).Marshal"})
 			}},
+			{"MERGE-CID-BOUND", ruleMergeCidBound},
 			{"CLOSURE-NO-TOLERANCE", ruleClosureNoTolerance},
 			{"ERRFLOW", func(c *eng.Ctx) {
 				ruleErrFlowCone(c, "ERRFLOW", []string{"internal/core/block.AddDelta", "internal/core/block.ProcessBlock", "net.syncDAG"},
